@@ -79,6 +79,31 @@ impl Trace {
         }
     }
     pub fn emit(&mut self, v: &Value) {
+        // TLC's Json module cannot deserialize null: write the string "null" instead
+        fn has_null(v: &Value) -> bool {
+            match v {
+                Value::Null => true,
+                Value::Array(a) => a.iter().any(has_null),
+                Value::Object(o) => o.values().any(has_null),
+                _ => false,
+            }
+        }
+        fn scrub(v: &mut Value) {
+            match v {
+                Value::Null => *v = Value::String("null".into()),
+                Value::Array(a) => a.iter_mut().for_each(scrub),
+                Value::Object(o) => o.values_mut().for_each(scrub),
+                _ => {}
+            }
+        }
+        if has_null(v) {
+            let mut c = v.clone();
+            scrub(&mut c);
+            serde_json::to_writer(&mut self.out, &c).unwrap();
+            self.out.write_all(b"\n").unwrap();
+            self.lines += 1;
+            return;
+        }
         serde_json::to_writer(&mut self.out, v).unwrap();
         self.out.write_all(b"\n").unwrap();
         self.lines += 1;
